@@ -33,6 +33,7 @@
 // cb, info, link-status requests), 1 = fragments written (seen through the mock IO handle), 2 =
 // completions of user requests, 3 = `now`.  Within one (time, stream) the arrival order is kept.
 //   conn <t> | closed <t> <reason>
+//   rx <t> <from>                       a fragment is handed to the connected master (stream 0)
 //   tx <t> <hex>                        fragment written
 //   txlink <t> <assoc>                  REQUEST_LINK_STATUS (the mock transport writes nothing; seen
 //                                       through the tracing event of MasterSession::run_link_status_task)
@@ -662,6 +663,9 @@ pub(crate) async fn run_msched(script: &Script, obs: &mut Vec<String>) {
                 let from: u16 = op[1].parse().unwrap();
                 let data = unhex(&op[2]);
                 if shared.connected.load(Ordering::SeqCst) && !data.is_empty() {
+                    // marks, among the callbacks of the master task, the point at which the
+                    // fragment is handed to it
+                    shared.push(0, |t| format!("rx {} {}", t, from));
                     crate::transport::mock::reader::verif_hook::push_frame_info(FrameInfo::new(
                         EndpointAddress::try_new(from).unwrap(),
                         None,
